@@ -34,8 +34,8 @@ SPECIFIC = {
          "rec_size is the encoding length with a 64-byte signature; schemes with other signature lengths get the upper bound and size() only."),
  'C10': ("Proved: NodeId::from(pk).raw == keccak(pk.spec_encode_uncompressed()); valid() includes node_id_ok; every mutator/builder/decode establishes it for the signer's / carried key; hence unchanged under same-key updates and a function of the key alone.",
          "keccak256 is an uninterpreted total function (sha3 stand-in); ed25519 encode_uncompressed is verified (the 32 key bytes), k256 encode_uncompressed (64-byte x||y via SEC1 decompression) is an assumed contract."),
- 'C11': ("REDUCED CLAIM. Proved: CombinedKey::enr_to_public precedence (secp256k1 entry wins whenever it is a valid key, else ed25519), variant-wise dispatch of sign_v4/public/verify_v4/encode/encode_uncompressed/enr_key, L1/L2/L4 for CombinedKey from its components; each single-scheme enr_to_public reads exactly its own key name, RLP-decodes the entry as a byte string and fails when absent; decode::<K> depends on K only through spec_enr_to_public/spec_verify_v4 (parametricity is visible in dec_ok's definition).",
-         "NOT decided: that k256 and libsecp256k1 implement the same parsing/verification predicates (rust_secp256k1.rs is FFI, not extracted)."),
+ 'C11': ("Proved: (a) the k256 and the rust-secp256k1 back-end accept exactly the same records (lemma_backends_accept_the_same: accepts::<k256 SigningKey>(item) == accepts::<secp256k1 SecretKey>(item)) and report the same public-key bytes and node-id input (lemma_backends_same_key); both back-end files are extracted and their glue (lookup of exactly the scheme's own key name, RLP string decoding, decode_public restricted to the two SEC1 encodings all libraries share, digest + signature parsing + verification, serialisation) is verified against the assumed contracts of the two libraries; rust_secp256k1.rs and the cfg arm of check_spec_reserved_keys it switches are verified in a second extraction configuration (all features). (b) CombinedKey::enr_to_public precedence (secp256k1 entry wins whenever it is a valid key, else ed25519), variant-wise dispatch of sign_v4/public/verify_v4/encode/encode_uncompressed/enr_key, L1/L2/L4 for CombinedKey from its components; each single-scheme enr_to_public reads exactly its own key name and fails when absent; decode::<K> depends on K only through spec_enr_to_public/spec_verify_v4.",
+         "ASSUMED (named X1, X1', X2 in prelude/standin.rs): on the standard SEC1 encodings k256 and libsecp256k1 accept the same points with the same serialisations, and 'parses as a compact signature and verifies over keccak256(msg)' is the same predicate in both libraries (low-S included). The libraries themselves (FFI / curve arithmetic) are outside every contract. A genuine defect of this property (different public-key encodings accepted, D11) was found while writing these contracts and is fixed in /repo."),
  'C12': ("Proved: to_base64 == 'enr:' + URL_SAFE_NO_PAD text of record_rlp; from_str Ok(e) ==> the string is the text (with or without prefix) of some x that is EXACTLY one acceptable record and e reports x's fields; both spellings of an acceptable record's text are accepted. Engine constants have distinct ghost identities.",
          "Display for Enr writes exactly that text (verified). Padding/alphabet/trailing-bit strictness is the assumed contract of the base64 engine (accepts exactly canonical texts); the JSON string is covered for Enr through the reduced serde stand-in (one string token in, one string token out); serde_json itself is outside."),
  'C13': ("Proved: decode's outcome and record are functions of the first item only (dec_ok/dec_post mention only item_raw(buf, hdr)); on Ok the buffer is advanced by exactly item_total.",
